@@ -1371,11 +1371,13 @@ namespace awkward {
 
     ContentPtrVec contents;
     for (auto ptr : tocarry) {
-      contents.push_back(std::make_shared<IndexedArray64>(
+      IndexedArray64 field(
         Identities::none(),
         util::Parameters(),
         Index64(ptr, 0, combinationslen, kernel::lib::cpu),   // DERIVE
-        shallow_copy()));
+        shallow_copy());
+      // this array may itself be indexed or option-type
+      contents.push_back(field.simplify_optiontype());
     }
     return std::make_shared<RecordArray>(Identities::none(),
                                          parameters,
